@@ -574,6 +574,7 @@ func init() {
 // (and for C08 an undo of the last block after each step), S = every subset of size <= 2 plus
 // every subset of the window of slots 2..9.
 func lightMedium(c *Ctx, prop string, undo bool, collect ...string) {
+	defer c.Phase("structured light-client families")()
 	Ns := []int{12}
 	if c.Thorough() {
 		Ns = []int{11, 12, 13, 16, 17}
